@@ -8,14 +8,14 @@ import (
 )
 
 type modLoc struct {
-	prefix  string
-	place   *Place
-	sl      *SliceV // slice range (elem heap)
-	lo, hi  *Term
-	mapRef  *Term
-	mapKey  string
+	prefix   string
+	place    *Place
+	sl       *SliceV // slice range (elem heap)
+	lo, hi   *Term
+	mapRef   *Term
+	mapKey   string
 	wholeKey bool
-	unknown bool // extent could not be evaluated (e.g. mentions the result inside a loop): covers everything under prefix kind
+	unknown  bool // extent could not be evaluated (e.g. mentions the result inside a loop): covers everything under prefix kind
 }
 
 // modLocs evaluates the modifies clauses of the top-level contract in the entry state.
